@@ -5,7 +5,8 @@ LEAN_MODULE = "Urandom.Props.C16"
 RULE = ("the four ziggurat tables and the two R constants are re-translated from src/distr/ziggurat_tables.rs on every run (exact decimal rationals) and the table theorems are "
         "re-proved on them; requests: StandardNormal / Exp1 (f32, f64) and Exp / Normal / LogNormal on scripted words covering all 256 layers x {rectangle, threshold edge +-3 "
         "mantissa steps, wedge, |u| near 1} x both signs x Float01 words {smallest, largest, all leading-zero classes, random} incl. the tails; sample bits and words consumed are "
-        "compared with the model (which uses the translated tables and the platform libm). thorough: chi-square goodness of fit on 2x10^6 samples (supporting evidence only). "
+        "compared with the model (which uses the translated tables and the platform libm). extra: chi-square goodness of fit under real generators on 10^8 (thorough 1.5x10^9) samples per standard sampler and 4x10^7 (3x10^8) per f32 / transformed distribution, 64 equal-probability cells plus "
+        "halving tail cells down to 2500 expected samples (violation search with error probability <= 1e-12; not a proof of the law). "
         "non-trivial = all; distinct = distinct request line")
 TRUSTED = ["libm (ln, exp): the model calls the same platform libm as the Rust code",
            "the distributional law itself (uniform points under the curve have the target law; Marsaglia's tail method) is NOT proved: partial"]
@@ -40,42 +41,16 @@ def oracle(req, impl, build):
 
 
 def extra(binary, build, tier, rng):
-    if tier != "thorough":
-        return
-    # supporting evidence only: chi-square of real samples against the exact layer-independent bins; threshold p < 1e-9
-    import math
-    reqs = []
-    from .common import SplitMix
-    n_per = 2000
-    for j in range(1000):
-        words = ",".join(str(rng.u64()) for _ in range(n_per * 4))
-        reqs.append("zig kind=%s w=64 n=%d words=%s" % ("norm" if j % 2 == 0 else "exp", n_per, words))
-    rc, res, err = C.run_lines(binary, ["run"], reqs)
-    edges_n = [-3, -2, -1.5, -1, -0.5, 0, 0.5, 1, 1.5, 2, 3]
-    edges_e = [0.1, 0.25, 0.5, 1, 1.5, 2, 3, 4, 6]
-    cn = [0] * (len(edges_n) + 1)
-    ce = [0] * (len(edges_e) + 1)
-    tn = te = 0
-    import bisect
-    for q, o in zip(reqs, res):
-        s = FO.samples(o) or []
-        for x in s:
-            if x == "nan":
-                continue
-            v = G.b64f(x)
-            if "kind=norm" in q:
-                cn[bisect.bisect_right(edges_n, v)] += 1; tn += 1
-            else:
-                ce[bisect.bisect_right(edges_e, v)] += 1; te += 1
-    Phi = lambda x: 0.5 * (1 + math.erf(x / math.sqrt(2)))
-    pn = [Phi(edges_n[0])] + [Phi(b) - Phi(a) for a, b in zip(edges_n, edges_n[1:])] + [1 - Phi(edges_n[-1])]
-    E = lambda x: 1 - math.exp(-x)
-    pe = [E(edges_e[0])] + [E(b) - E(a) for a, b in zip(edges_e, edges_e[1:])] + [1 - E(edges_e[-1])]
-    chi_n = sum((c - tn * p) ** 2 / (tn * p) for c, p in zip(cn, pn)) if tn else 0
-    chi_e = sum((c - te * p) ** 2 / (te * p) for c, p in zip(ce, pe)) if te else 0
-    yield {"kind": "note", "text": "chi-square (support only): normal %.1f on %d dof (n=%d), exponential %.1f on %d dof (n=%d)" % (chi_n, len(pn) - 1, tn, chi_e, len(pe) - 1, te)}
-    # p < 1e-9 thresholds: chi2 > ~70 for 11 dof, ~66 for 9 dof
-    if chi_n > 75 or chi_e > 70:
-        yield {"kind": "oracle", "build": build, "request": "chi-square goodness of fit over %d samples" % (tn + te), "impl": "normal chi2=%.1f counts=%s; exp chi2=%.1f counts=%s" % (chi_n, cn, chi_e, ce),
-               "model": "", "oracle": "sample histogram is incompatible with the target law (p < 1e-9)"}
-    yield {"kind": "count", "what": "gof-samples", "n": tn + te}
+    """goodness of fit under real generators (violation search; the law itself is not proved): 64 equal-probability cells plus tail cells of
+    halving probability down to an expected count of 2500 (so the wedges, the base strip and the tails beyond R each get their own cells);
+    alarm only beyond a chi-square bound of error probability 1e-12"""
+    from .stat_oracle import run_statd
+    N = 100_000_000 if tier == "quick" else 1_500_000_000
+    M = 40_000_000 if tier == "quick" else 300_000_000
+    gens = ["xoshiro", "splitmix", "wyrand", "chacha8"]
+    specs = [("norm", 64, 0.0, 0.0, N, rng.u64(), rng.choice(gens)), ("exp", 64, 0.0, 0.0, N, rng.u64(), rng.choice(gens)),
+             ("norm", 32, 0.0, 0.0, M, rng.u64(), rng.choice(gens)), ("exp", 32, 0.0, 0.0, M, rng.u64(), rng.choice(gens)),
+             ("expl", 64, 2.5, 0.0, M, rng.u64(), rng.choice(gens)), ("expl", 32, 0.125, 0.0, M, rng.u64(), rng.choice(gens)),
+             ("normal", 64, -3.0, 0.5, M, rng.u64(), rng.choice(gens)), ("normal", 32, 10.0, 4.0, M, rng.u64(), rng.choice(gens)),
+             ("lognormal", 64, 0.25, 0.75, M, rng.u64(), rng.choice(gens)), ("lognormal", 32, -1.0, 0.5, M, rng.u64(), rng.choice(gens))]
+    yield from run_statd(binary, specs, "gof-samples", build)
